@@ -198,8 +198,9 @@ CHECKS = {
          "DESIGN.md 3/C17"),
  "C18": ("hypothesis+nvserve",
          "Hypothesis structured programs; generic .lst parser checked against the hex output and an own disassembly of the output image",
-         "Generated-input search: structured programs (multi-word instructions, data between code, .org segments, "
-         "macros, includes with .list) for 43 CPUs with an instruction corpus are assembled by the sanitized CLI with "
+         "Generated-input search: structured programs (multi-word instructions, data between code, up to four .org "
+         "segments of which the later ones start at 16/64 KiB-aligned addresses up to 1 MiB with whole unallocated "
+         "pages in between, macros, includes with .list) for 43 CPUs with an instruction corpus are assembled by the sanitized CLI with "
          "-l; the .lst is parsed without per-CPU tables and every instruction line must carry the disassembly (own "
          "decoder call on the OUTPUT image) of exactly the bytes it shows, in a standard grouping; all output bytes "
          "must appear on an instruction line or in the data-section dump with their values; symbol table and Low/High "
